@@ -104,7 +104,7 @@ Definition simple_has_simple (self other : jordan) : res bool :=
       do x <- simple_has_jordan self other true;
       if negb x then Ok false
       else if Qlt_bool 0 areaA then Ok true
-      else do y <- simple_has_jordan other self false; Ok (negb y)   (* both unbounded: compare the holes *)
+      else simple_has_jordan (invert other) self true   (* both unbounded: the hole of self lies in the hole of other *)
   end.
 (* SimpleShape._contains_shape(ConnectedShape): temporary inversion *)
 Definition simple_has_connected (self : jordan) (subs : list jordan) : res bool :=
